@@ -1,3 +1,5 @@
+\* spec-level mutation (non-vacuity of NoTouchAfterDestruction): the historical end_scope() that signals whenever it
+\* finds count == 0 MUST violate the invariant
 SPECIFICATION Spec
 CONSTANTS Threads <- T  Items <- W  Joins <- J  Scenarios <- Scn  FirstCloserOnly = FALSE
 INVARIANTS NoTouchAfterDestruction
